@@ -8,6 +8,7 @@ import (
 	"bytes"
 	"encoding/json"
 	"fmt"
+	"strings"
 
 	digest "github.com/opencontainers/go-digest"
 
@@ -234,12 +235,25 @@ func equations(s snap, tag string, lenient bool, ev *evid.Collector) []*evid.Vio
 		add("set-manifest-without-rawbody", "IsSet()=true but RawBody() returned an error or no bytes")
 		return vs
 	}
+	doc, ok, amb := named(s.MT, s.Raw)
+	fromStruct := strings.HasPrefix(tag, "new-orig:") || strings.HasPrefix(tag, "build-orig:") || strings.HasPrefix(tag, "orig:")
+	if !ok && s.MT == mtDocker1Sig && !amb && !lenient && fromStruct {
+		if _, mjIsJWS, _ := jwsPayload(s.MJ); mjIsJWS || json.Valid(s.Raw) {
+			// a signed schema1 manifest whose serialisation was produced from the struct
+			// (WithOrig / SetOrig): RawBody is the plain struct rendering without signatures
+			vs = append(vs, evid.V(sigSignedStruct, "media type %s, but RawBody() is not the pretty-JWS document (MarshalJSON is: %v): RawBody()=%s MarshalJSON()=%s [%s]", s.MT, mjIsJWS, clip(s.Raw), clip(s.MJ), tag))
+			return vs
+		}
+	}
 	if s.MJErr {
 		add("set-manifest-marshaljson-error", "IsSet()=true but MarshalJSON() returned an error")
 	} else if !bytes.Equal(s.Raw, s.MJ) {
-		add("rawbody-differs-from-marshaljson", "RawBody()=%s but MarshalJSON()=%s", clip(s.Raw), clip(s.MJ))
+		if s.MT == mtDocker1Sig && bytes.Equal(trimJSONSpace(s.Raw), s.MJ) {
+			vs = append(vs, evid.V(sigSignedTrim, "signed schema1: MarshalJSON() is RawBody() without the white space around the document (%d vs %d bytes) [%s]", len(s.MJ), len(s.Raw), tag))
+		} else {
+			add("rawbody-differs-from-marshaljson", "RawBody()=%s but MarshalJSON()=%s", clip(s.Raw), clip(s.MJ))
+		}
 	}
-	doc, ok, amb := named(s.MT, s.Raw)
 	if !ok {
 		if amb || lenient {
 			ev.Class("skip:jws-ambiguous-or-undecodable")
@@ -265,7 +279,7 @@ func equations(s snap, tag string, lenient bool, ev *evid.Collector) []*evid.Vio
 		ev.Class("skip:values-body-has-case-variant-or-duplicate-keys")
 		return vs
 	}
-	pd, err := parseDoc(doc)
+	pd, err := parseDoc(s.MT, doc)
 	if err != nil {
 		add("rawbody-does-not-parse", "the serialisation does not decode: %v: %s", err, clip(doc))
 		return vs
@@ -283,17 +297,7 @@ func equations(s snap, tag string, lenient bool, ev *evid.Collector) []*evid.Vio
 		}
 	}
 	if s.HasLay {
-		var pl []XDesc
-		switch {
-		case s.MT == mtOCIArtifact:
-			pl = pd.Blobs
-		case s.MT == mtDocker1 || s.MT == mtDocker1Sig:
-			for _, f := range pd.FSLayers {
-				pl = append(pl, XDesc{Digest: f.BlobSum})
-			}
-		default:
-			pl = pd.Layers
-		}
+		pl := pd.Layers
 		if ok, i := eqDescs(s.Lay, pl); !ok {
 			add("layers-differ-from-rawbody", "GetLayers() (%d entries) differs from the body (%d entries) at index %d: getter %s, body %s", len(s.Lay), len(pl), i, showDescs(s.Lay), showDescs(pl))
 		}
@@ -312,6 +316,33 @@ func equations(s snap, tag string, lenient bool, ev *evid.Collector) []*evid.Vio
 		}
 	}
 	return vs
+}
+
+// signatures of findings whose root cause is independent of entry and step
+const (
+	sigSignedStruct = "signed-schema1-from-struct-rawbody-is-not-the-jws"
+	sigSignedTrim   = "signed-schema1-marshaljson-drops-outer-whitespace"
+	sigOrigSize     = "withorig-reports-caller-supplied-size"
+)
+
+// blocking tells whether any violation other than the benign, non-cascading
+// ones is present (a later clause or step would only restate it).
+func blocking(vs []*evid.Violation) bool {
+	for _, v := range vs {
+		if v.Sig != sigSignedTrim && v.Sig != sigOrigSize {
+			return true
+		}
+	}
+	return false
+}
+
+func hasSig(vs []*evid.Violation, sig string) bool {
+	for _, v := range vs {
+		if v.Sig == sig {
+			return true
+		}
+	}
+	return false
 }
 
 // typeName is a short label of the concrete manifest type, by media type.
